@@ -165,6 +165,7 @@ func runCheck(o *Options) int {
 	prog, err := LoadProgram(o.Repo, []string{"./..."}, o.SpecDir, o.Tags)
 	if err == nil {
 		prog.Lock = loadLock(o.Lock)
+		prog.discoverInstances()
 	}
 	if err != nil {
 		fmt.Fprintln(os.Stderr, "govc: load:", err)
@@ -237,6 +238,13 @@ func runCheck(o *Options) int {
 			continue
 		}
 		if fn == nil {
+			if i := strings.Index(c.Name, "$"); i > 0 && c.AsOnly && prog.Funcs[fkey(c.Pkg, c.Name[:i])] != nil {
+				// a closure that is only declared an instance of a function type and no longer exists (its parent does): an
+				// edit removed or merged it. Its obligations went with it; the instances that exist now are still checked
+				// (closures under their own entries, new named helpers through discoverInstances).
+				fr.Vacuity = "n/a (closure no longer exists; it was only declared an instance of " + c.AsName + ")"
+				continue
+			}
 			fr.Error = "STALE: function not found in the current tree"
 			continue
 		}
